@@ -54,7 +54,8 @@ def subjects_ops(rng):
     registry = {0: COMMON_SUBJECTS}
     for slot in rng.sample(range(1, PACKAGE_SLOTS), rng.randint(1, 3)):
         count = rng.choice([1, 1, 2, 3, 5, 8, 17])
-        registry[slot] = [bytes(rng.choice(b"abcdefghijklmnopqrstuvwxyz-") for _ in range(rng.choice([0, 1, 4, 15, 15, 40, 101])))
+        registry[slot] = [None if rng.random() < 0.12 else       # an entry registered with a NULL name
+                          bytes(rng.choice(b"abcdefghijklmnopqrstuvwxyz-") for _ in range(rng.choice([0, 1, 4, 15, 15, 40, 101])))
                           for _ in range(count)]
     ops = [f"subjects {slot} " + " ".join(hx(n) for n in names) for slot, names in registry.items()]
     return ops, registry
@@ -68,6 +69,7 @@ def subject_ids(rng, registry):
         base = slot * STRIDE
         ids += [base, base + len(names) - 1, base + len(names), base + len(names) + 1, base + STRIDE - 1,
                 base + rng.randrange(len(names)), base + rng.randrange(len(names))]
+        ids += [base + i for i, n in enumerate(names) if n is None]      # entries registered with a NULL name
         if base:
             ids.append(base - 1)
     free = [k for k in range(PACKAGE_SLOTS) if k not in registry]
@@ -95,6 +97,8 @@ def regen(ctx):
 
 
 def hx(b):
+    if b is None:
+        return "NULL"      # a NULL name pointer (subject lists)
     return b.hex() if b else "-"
 
 
@@ -342,6 +346,10 @@ def gen_subject_boundaries(rng):
     """every boundary id of every registered list (and of the subject space) through the pipeline and the no-alloc logger"""
     e, tid, ts = env_op(rng)
     sops, reg = subjects_ops(rng)
+    # one more list that certainly has NULL-named entries (first, middle, last)
+    slot = rng.choice([k for k in range(1, PACKAGE_SLOTS) if k not in reg])
+    reg[slot] = [None, b"named", None, b"x", None][:rng.choice([1, 3, 5])]
+    sops.append(f"subjects {slot} " + " ".join(hx(n) for n in reg[slot]))
     ops = [e] + sops + ["init a 6", "init n 6"]
     for sid in sorted(set(subject_ids(rng, reg))):
         name = spec_subject_name(reg, sid)
@@ -536,7 +544,7 @@ def oracle(case, lines):
         if t[0] == "subjects":
             l = nxt()
             if l is not None and l.startswith("W subjects"):
-                registry[int(t[1])] = [unhx(x) for x in t[2:]]
+                registry[int(t[1])] = [None if x == "NULL" else unhx(x) for x in t[2:]]
             continue
         if t[0] == "setlevel":
             l = nxt()
